@@ -55,9 +55,12 @@ POOL = [
     ("A3", _a(3, "b", [5, 5, 5], "w", 3, "2022-06-01T12:00:00.5Z", "ff", "/w==", True)),
     ("A4", _a(1, "ab", [3, 2, 1], "v", 2, "2020-01-01T00:00:00Z", "61", "YWI=", False)),
     ("A5", _a(1.5, "a%", [1, 1, 1], "", 1, "2021-01-01T00:00:00Z", "00", "AA==", True)),
+    ("A6", _a(2 ** 53, "b", [2 ** 53, 2 ** 53 + 1, 1], "w", 2 ** 53 + 1, "2022-06-01T12:00:00.5Z", "ff", "/w==", False)),
     ("B1", {"type": "b", "x": 1}),
     ("B2", {"type": "b", "x": 2}),
     ("B3", {"type": "b", "x": 3}),
+    ("B4", {"type": "b", "x": 2 ** 53}),
+    ("B5", {"type": "b", "x": 2 ** 53 + 1}),
     ("I1", {"type": "ipv4-addr", "value": "1.2.3.4"}),
     ("I2", {"type": "ipv4-addr", "value": "1.2.3.5"}),
     ("I3", {"type": "ipv4-addr", "value": "1.2.3.4/32"}),
